@@ -503,30 +503,30 @@ fn simplify_brackets(n: &mut Node, _walk: &Walk) -> PassAction {
 
 pub fn optimize(r: &mut Regex) {
     run_pass(r, &mut simplify_brackets);
-    #[cfg(regress_verif)]
+    #[cfg(all(regress_verif, feature = "std"))]
     crate::verif::ir_pass("simplify_brackets", r);
     loop {
         let mut changed = false;
         changed |= run_pass(r, &mut decat);
-        #[cfg(regress_verif)]
+        #[cfg(all(regress_verif, feature = "std"))]
         crate::verif::ir_pass("decat", r);
         changed |= run_pass(r, &mut unroll_loops);
-        #[cfg(regress_verif)]
+        #[cfg(all(regress_verif, feature = "std"))]
         crate::verif::ir_pass("unroll_loops", r);
         changed |= run_pass(r, &mut promote_1char_loops);
-        #[cfg(regress_verif)]
+        #[cfg(all(regress_verif, feature = "std"))]
         crate::verif::ir_pass("promote_1char_loops", r);
         #[cfg(not(feature = "utf16"))]
         {
             changed |= run_pass(r, &mut form_literal_bytes);
-            #[cfg(regress_verif)]
+            #[cfg(all(regress_verif, feature = "std"))]
             crate::verif::ir_pass("form_literal_bytes", r);
         }
         changed |= run_pass(r, &mut remove_empties);
-        #[cfg(regress_verif)]
+        #[cfg(all(regress_verif, feature = "std"))]
         crate::verif::ir_pass("remove_empties", r);
         changed |= run_pass(r, &mut propagate_early_fails);
-        #[cfg(regress_verif)]
+        #[cfg(all(regress_verif, feature = "std"))]
         crate::verif::ir_pass("propagate_early_fails", r);
         if !changed {
             break;
